@@ -84,7 +84,7 @@ Definition spec_safe_method (m : bytes) : bool :=
 (* ---------- variants ---------- *)
 (* the members of a Vary field value; "*" anywhere makes the response unusable without validation *)
 Definition vary_members (h : headers) : list bytes :=
-  flat_map trimmed_csv_canonical (hvalues (bs "Vary") h).
+  trimmed_csv_canonical (join [44] (hvalues (bs "Vary") h)).
 Definition vary_has_star (h : headers) : bool := existsb (beq (bs "*")) (vary_members h).
 
 (* two requests select the same variant for field f: absent or empty matches only absent or empty,
